@@ -481,7 +481,13 @@ fn handle_a2ml(
     tokens: &mut Vec<A2lToken>,
 ) -> (usize, u32) {
     let tokcount = tokens.len();
-    if tokcount >= 2 && tokens[tokcount - 2].ttype == A2lTokenType::Begin {
+    // the token before the tag must be /begin; comments between /begin and the tag don't count
+    let preceded_by_begin = tokens[..tokcount - 1]
+        .iter()
+        .rev()
+        .find(|tok| tok.ttype != A2lTokenType::Comment)
+        .is_some_and(|tok| tok.ttype == A2lTokenType::Begin);
+    if preceded_by_begin {
         let startpos = bytepos;
         let filebytes = filedata.as_bytes();
         let datalen = filedata.len();
